@@ -79,6 +79,10 @@ def compare_pipeline(p, g):
         out.append(("cache", "C02", "another holder of a returned SharedFuture now reads %s, expected %s" % (g.get("cache"), o.get("cache"))))
     if int(g["allocs"]) > o["allocs"]:
         out.append(("allocs", "C20", "%s allocations, bound %d" % (g["allocs"], o["allocs"])))
+    if "copies" in g and "copies" in o and int(g["copies"]) > o["copies"]:
+        out.append(("copies", "C20", "the library copied the value %s times (bound %d: only a SharedFuture's state may be "
+                    "copied from); for a value type that owns heap memory every copy is an allocation beyond the one block per step" % (
+                        g["copies"], o["copies"])))
     if g["leak"] != "0":
         out.append(("leak", "C03", "allocation balance %s after the pipeline is quiescent" % g["leak"]))
     if g["flive"] != "0":
